@@ -155,7 +155,8 @@ class ByteLoopInterp:
         self.obj_refs = {}                # "<obj prefix>.<attr>" -> reference
         self.sym_alias = {}               # int parameter key -> key of the caller's variable it was bound from
         self.buffers = set()              # buffer keys
-        self.loopvars = set()             # canonical keys of loop variables over the input
+        self.loopvars = {"#input"}        # canonical keys of loop variables over the input (+ wholesale copies of it)
+        self.find_info = {}               # key of `i = <input>.find(0, start)` -> start
         self.stepped = set()              # keys that are stepped with += / -=
         self.record = True
         self.site_viol = {}               # emission stmt node -> [messages]   (typestate)
@@ -189,7 +190,41 @@ class ByteLoopInterp:
                 and not e.keywords:
             r = self.ref_of(e.args[0])
             return r if r == ("data",) else None
+        if isinstance(e, ast.Subscript) and isinstance(e.slice, ast.Slice) and e.slice.step is None:
+            r = self.ref_of(e.value)          # a slice of the input is again "some bytes of the input"
+            return r if r == ("data",) else None
         return None
+
+    def _input_copy(self, e, env):
+        """Byte items of `bytearray(<input or slice of it>)`, None if e is not such a copy.  A position found with
+        `<input>.find(0, start)` tells where the first zero at or after `start` is: the bytes between are non-zero,
+        the `start` bytes before were not looked at."""
+        inner, wrapped = e, False
+        while isinstance(inner, ast.Call) and ap(inner.func) in ("bytearray", "bytes") and len(inner.args) == 1 and not inner.keywords:
+            inner, wrapped = inner.args[0], True
+        if not wrapped:
+            return None
+        base, sl = inner, None
+        if isinstance(base, ast.Subscript) and isinstance(base.slice, ast.Slice):
+            base, sl = base.value, base.slice
+        if self.ref_of(base) != ("data",):
+            return None
+
+        def seg(itv, n):
+            return ("rep", [("b", itv, "#input")], n)
+
+        def upto_first_zero(start):
+            return ([seg((0, 255), (start, start))] if start else []) + [seg((1, 255), (0, INF))]
+        if sl is None:
+            for k, start in self.find_info.items():
+                if env.get(k) == (-1, -1):           # no zero at or after `start`
+                    return upto_first_zero(start)
+            return [seg((0, 255), (0, INF))]
+        if sl.step is None and sl.lower is None and isinstance(sl.upper, (ast.Name, ast.Attribute)):
+            k = self.key_of(sl.upper)
+            if k in self.find_info and k in env and env[k][0] >= 0:
+                return upto_first_zero(self.find_info[k])
+        return [seg((0, 255), (0, INF))]
 
     def key_of(self, e):
         """Storage key of an integer variable expression (local name or attribute of a helper object)."""
@@ -704,6 +739,8 @@ class ByteLoopInterp:
         return out, ref
 
     def _bind_ref(self, tg, ref):
+        if ref == ("data",) and isinstance(tg, ast.Name) and self.cur.refs.get(tg.id) == ("data",):
+            self.find_info.clear()            # the input name now denotes other bytes: positions found before are stale
         if isinstance(tg, ast.Name):
             old = self.cur.refs.get(tg.id)
             if old is not None and old != ref:
@@ -780,6 +817,26 @@ class ByteLoopInterp:
             key = self.key_of(tg) if isinstance(tg, (ast.Name, ast.Attribute)) else None
             if key is None:
                 self.bad(st, "assignment target")
+            # position of the first zero byte of the input
+            if isinstance(val, ast.Call) and isinstance(val.func, ast.Attribute) and val.func.attr in ("find", "index") \
+                    and self.ref_of(val.func.value) == ("data",) and 1 <= len(val.args) <= 2 and not val.keywords \
+                    and isinstance(val.args[0], ast.Constant) and val.args[0].value in (0, b"\x00") \
+                    and not isinstance(val.args[0].value, bool):
+                start = self.ev(val.args[1], {}) if len(val.args) == 2 else (0, 0)
+                if start[0] != start[1] or start[0] < 0:
+                    self.bad(st, "search start that is not a non-negative constant")
+                self.find_info[key] = start[0]
+                lo = -1 if val.func.attr == "find" else 0
+                return self.map_envs(state, lambda env: self.assign(key, (lo, INF), env, value_itv=(lo, INF)))
+            # an output buffer that starts as a copy of (part of) the input
+            if self._input_copy(val, {}) is not None:
+                self._bind_ref(tg, ("buf", key))
+                self.buffers.add(key)
+                out = {}
+                for ph, env in state.items():
+                    env = {**env, f"#len:{key}": (0, 0)}
+                    out = _state_join(out, self.emit(st, key, self._input_copy(val, env), {ph: env}))
+                return out
             # a fresh output buffer
             if isinstance(val, ast.Call) and ap(val.func) == "bytearray" and \
                     (not val.args or (len(val.args) == 1 and isinstance(val.args[0], ast.Constant) and val.args[0].value in (b"", 0))):
@@ -869,6 +926,15 @@ class ByteLoopInterp:
             return self.loop(st, state, fl)
         if isinstance(st, ast.Return):
             v = st.value
+            if v is not None and self._input_copy(v, {}) is not None:
+                key = f"#tmp:{getattr(st, 'lineno', 0)}"
+                self.buffers.add(key)
+                out = {}
+                for ph, env in state.items():
+                    env = {**env, f"#len:{key}": (0, 0)}
+                    out = _state_join(out, self.emit(st, key, self._input_copy(v, env), {ph: env}))
+                fl.ret.append((out, st, ("buf", key)))
+                return {}
             if isinstance(v, ast.Call) and self._callee(v) is not None and self._callee(v)[0] != "ctor":
                 out, d = self.inline(v, state)
                 fl.ret.append((out, st, d))
